@@ -19,7 +19,12 @@ use std::rc::Rc;
 use std::sync::atomic::{AtomicBool, AtomicPtr, Ordering};
 use std::sync::Arc;
 use std::time::{self, Instant};
+#[cfg(not(raindb_verif))]
 use std::{io, panic, ptr, thread};
+#[cfg(raindb_verif)]
+use std::{io, panic, ptr};
+#[cfg(raindb_verif)]
+use parking_lot::verif_rt::thread;
 
 use crate::batch::Batch;
 use crate::compaction::{
@@ -393,6 +398,7 @@ impl DB {
             &mut db_fields_guard,
             || -> RainDBResult<Option<Vec<u8>>> {
                 let internal_key = InternalKey::new_for_seeking(key.to_vec(), snapshot);
+                verif_point!("get.unlocked");
 
                 // Check the memtable first
                 if let Ok(maybe_value) = self.memtable().get(&internal_key) {
@@ -406,6 +412,7 @@ impl DB {
                     }
                 }
 
+                verif_point!("get.after_mem");
                 // Check the immutable memtable (i.e. the memtable pending compaction) if there is
                 // one
                 if let Some(immutable_memtable) = maybe_immutable_memtable {
@@ -421,6 +428,7 @@ impl DB {
                     }
                 }
 
+                verif_point!("get.after_imm");
                 // Check table files on disk
                 match current_version
                     .read()
@@ -1228,14 +1236,17 @@ impl DB {
                     WAL and to the memtable.
                     */
 
+                    verif_point!("write.before_wal");
                     // Write the changes to the write-ahead log first
                     unsafe {
                         // SAFETY: RainDB only allows one writer thread at a time.
                         (*self.wal().get()).append(&Vec::<u8>::from(&write_batch))?;
                     }
 
+                    verif_point!("write.after_wal");
                     // Write the changes to the memtable
                     DB::apply_batch_to_memtable(&**self.memtable(), &write_batch);
+                    verif_point!("write.after_mem");
 
                     Ok(())
                 },
@@ -1532,6 +1543,7 @@ impl DB {
             );
             let value = batch_element.get_value().map_or(vec![], |val| val.to_vec());
             memtable.insert(internal_key, value);
+            verif_point!("write.mem_insert");
 
             curr_sequence_num += 1;
         }
@@ -1764,6 +1776,7 @@ impl DB {
         parking_lot::MutexGuard::<'_, GuardedDbFields>::unlocked_fair(
             db_fields_guard,
             || -> RainDBResult<()> {
+                verif_point!("flush.build");
                 DB::build_table_from_iterator(
                     &db_state.options,
                     &mut file_metadata,
@@ -2086,6 +2099,7 @@ impl DB {
         */
         parking_lot::MutexGuard::<'_, GuardedDbFields>::unlocked_fair(db_fields_guard, move || {
             for file in files_to_delete {
+                verif_point!("gc.before_remove");
                 log::info!("Removing obsolete file: {:?}", &file);
                 if let Err(error) = filesystem_provider.remove_file(&file) {
                     log::error!(
@@ -2304,6 +2318,9 @@ pub enum DatabaseDescriptor {
     */
     SSTables,
 }
+
+#[cfg(raindb_verif)]
+mod verif_hooks;
 
 #[cfg(test)]
 mod db_test;
